@@ -4,7 +4,9 @@ import (
 	"bytes"
 	"crypto/elliptic"
 	"encoding/asn1"
+	"encoding/base64"
 	"fmt"
+	mh "github.com/multiformats/go-multihash"
 	"math/big"
 	"strings"
 	"testing/iotest"
@@ -40,7 +42,7 @@ func init() {
 		MinEvals:    floor(20000, 600000),
 		MinDistinct: floor(2000, 60000),
 		RequiredCells: func(string) []string {
-			cells := []string{"cid/ToSealed", "cid/ToSealedWriter", "cid/FromSealed", "cid/FromSealedReader", "cid/container", "sig/s-flip", "sig/der-padded", "variant/extra-element"}
+			cells := []string{"cid/ToSealed", "cid/ToSealedWriter", "cid/FromSealed", "cid/FromSealedReader", "cid/container", "cid/container-foreign-section-cid", "sig/s-flip", "sig/der-padded", "variant/extra-element"}
 			for _, k := range []string{"widen-1", "widen-2", "widen-4", "widen-8", "indefinite", "indefinite-split", "map-reverse", "map-rotate", "float-narrow", "null-undefined", "all-knobs"} {
 				cells = append(cells, "variant/"+k)
 			}
@@ -290,6 +292,42 @@ func runC08(w *mon.W) {
 					m := desc()
 					m["format"] = containerNames[f]
 					w.Violate("cid/container-key/"+containerNames[f], fmt.Sprintf("container reader (%s) files the token under %s, its content address is %s", containerNames[f], k, want), m)
+				}
+			}
+		}
+
+		// a CAR written by someone else may name the block by another CID of the same bytes (raw
+		// codec, sha2-512, CIDv0); if such a CAR is read at all, the token's CID is still the
+		// content address of its sealed bytes
+		for name, sc := range map[string]cid.Cid{
+			"raw-codec": cid.NewCidV1(0x55, want.Hash()),
+			"cidv0":     cid.NewCidV0(want.Hash()),
+			"sha2-512": func() cid.Cid {
+				h, _ := mh.Sum(sealed, mh.SHA2_512, -1)
+				return cid.NewCidV1(0x71, h)
+			}(),
+		} {
+			car := buildCAR([][2][]byte{{sc.Bytes(), sealed}}, -1, 0)
+			for vi, read := range []func() (container.Reader, error){
+				func() (container.Reader, error) { return container.FromCar(car) },
+				func() (container.Reader, error) { return container.FromCarReader(bytes.NewReader(car)) },
+				func() (container.Reader, error) {
+					return container.FromCarBase64([]byte(base64.StdEncoding.EncodeToString(car)))
+				},
+			} {
+				rd, err := read()
+				w.Eval(1)
+				w.Cover("cid/container-foreign-section-cid")
+				if err != nil {
+					continue
+				}
+				for k := range rd {
+					if !k.Equals(want) {
+						m := desc()
+						m["section_cid"] = sc.String()
+						m["car_hex"] = mon.Hex(car)
+						w.Violate("cid/container-key/car-section-"+name, fmt.Sprintf("a CAR naming the block %s (%s) is read, and the token is filed under %s; the content address of its sealed bytes is %s (reader variant %d)", sc, name, k, want, vi), m)
+					}
 				}
 			}
 		}
